@@ -5,12 +5,12 @@ from checks.c01 import SETUP, ASSUME
 
 def run(tier, seed):
     thorough = tier == 'thorough'
-    cases = [Case('pop_%d' % w, 'crypto', 'zzC16_pop', [w, 0]) for w in (0, 1, 2, 4, 5, 6, 7)]
+    cases = [Case('pop_%d' % w, 'crypto', 'zzC16_pop', [w, 0]) for w in (0, 1, 2, 4, 5, 6, 7, 8)]
     for tl in (list(range(0, 129)) if thorough else list(range(0, 65))):
         cases.append(Case('pop_tag%d' % tl, 'crypto', 'zzC16_pop', [3, tl]))
     return run_check('C16', cases, tier, seed, setup=SETUP, timeout_ms=240000,
         functions=['BLSGeneratePOP', 'BLSVerifyPOP', 'AggregateBLSPublicKeys', 'RemoveBLSPublicKeys', 'popKMAC (package initialiser)', 'NewExpandMsgXOFKMAC128', 'internalExpandMsgXOFKMAC128', 'hash.NewKMAC_128', 'hash.encodeString', 'hash.bytepad', '(*kmac128).ComputeHash'],
-        bounds={'tags': 'every application tag of length %s, contents symbolic' % ('0..128' if thorough else '0..64'), 'candidates': 'c*g1 with symbolic c', 'keys': 'from a private key, the identity key, and key objects obtained by aggregation / removal (same key, identity by removing all keys, identity by cancelling keys, removal from the identity key)',
+        bounds={'tags': 'every application tag of length %s, contents symbolic' % ('0..128' if thorough else '0..64'), 'candidates': 'c*g1 with symbolic c', 'keys': 'from a private key, the identity key, and key objects obtained by aggregation / removal (same key, identity by removing all keys, identity by cancelling keys, removal from the identity key), and a key decoded from a buffer that is overwritten afterwards',
                 'outside': 'independence of differently keyed KMAC instances (random-oracle assumption: different absorbed prefixes give unrelated outputs)'},
         assumptions=ASSUME, trusted=galg.TRUSTED + stubs_hash.TRUSTED,
         explanation='symbolic execution of the PoP functions down to the byte sequences absorbed by cSHAKE: for every tag the KMAC key strings of the two ciphersuites differ, hence (collision resistance) the hash-to-curve inputs differ, hence (formal hash discrete logs) the verification polynomial cannot vanish')
